@@ -5,7 +5,7 @@ from framework import scale, CaseResult, text_points
 from props import c02
 from props.diskcommon import (SIDE_FD, SIDE_SD, argv_sources, compare_action, dmodel_outcome, expected_entry, ext_of, fsck, gen_sources, model_srcs,
                               run_disk, sd_padding_ok, setup_sources)
-from props.tapecommon import CaseDir
+from props.tapecommon import CaseDir, materialize
 
 GEN_FILES = ["GenDisk"]
 RULE = ("source lists as in C02 (all sizes incl. 0 and a full side, --eos, names too long for 8.3 which must be skipped), both flavours. The oracle is the extracted "
@@ -23,7 +23,7 @@ def gen_cases(rng, tier):
         srcs = gen_sources(rng, rng.choice([0, 1, 2, 3, 5, 8, 14]), eos_rate=0.12, big_rate=0.05)
         if rng.random() < 0.2 and srcs:
             srcs.insert(rng.randrange(len(srcs)), {"arg": rng.choice(["toolongname.bas", "x.extension", "verylongname12.dat"]), "content": {"pat": "41", "len": 10}})
-        cases.append({"is_fd": rng.random() < 0.5, "verbose": rng.random() < 0.3, "sources": srcs})
+        cases.append({"is_fd": rng.random() < 0.5, "verbose": rng.random() < 0.3, "sources": srcs, "old": rng.choice([None, None, None, 0, 100, 1310720, 2621440, 3000000])})
     # names that spell the keys of the documented rules, without any extension: they are 'other files'
     keys = [{"arg": a, "content": {"pat": "41", "len": 10 + k}} for k, a in enumerate(["bas", "BIN", "txt", "Bat", "auto", "bas.bas", "auto.bat", "AUTO.txt", "bat.auto", "bin.", "x.bas,a"])]
     for is_fd in (True, False):
@@ -41,6 +41,9 @@ def run_case(case, ctx):
         is_fd, v = case["is_fd"], case["verbose"]
         fs, contents = setup_sources(cd, case["sources"])
         arch = "img" + ext_of(is_fd)
+        if case.get("old") is not None:
+            # a file already lies at the archive path (shorter, as long, longer than an image): create overwrites it
+            cd.put(arch, materialize({"rand": 77, "len": case["old"]}))
         r = run_disk(ctx, is_fd, ["-c"] + (["-v"] if v else []) + [arch] + argv_sources(case["sources"]), cd)
         after = cd.snapshot()
         raw = cd.get(arch)
@@ -95,7 +98,10 @@ def run_case(case, ctx):
         cd.close()
 
 
-shrink_candidates = c02.shrink_candidates
+def shrink_candidates(case):
+    yield from c02.shrink_candidates(case)
+    if case.get("old") is not None:
+        yield dict(case, old=None)
 summarise = c02.summarise
 
 
